@@ -98,7 +98,7 @@ theorem calmNext_pos (k : Nat) (script : List Entry) (dflt : Entry) (b : Int) (h
 def RoundInv (cfg : Cfg) (st : St) : Prop :=
   match st.task with
   | .inflight rnow queue _ _ fb replyAt reac _ _ =>
-      fb = false ∧ reac.accepts = true
+      fb = false ∧ reac.accepts = true ∧ rnow ≤ replyAt
       ∧ calmNext queue.length st.script st.dflt (rnow + ms cfg.tol - replyAt)
       ∧ ∀ p ∈ queue, rnow + ms cfg.tol ≤ p.2
   | _ => False
@@ -114,7 +114,7 @@ theorem calmNext_step (k j : Nat) (hj : j ≤ k) (script : List Entry) (dflt : E
     current time -/
 theorem roundStep_calm (cfg : Cfg) (hs : cfg.skipStale = false) (hd : cfg.delEarly = false) (rnow : Time)
     (q : List (Sid × Time)) (st : St) (haw : (roundStep cfg rnow q st).2 = true)
-    (hm : ∀ p ∈ q, rnow + ms cfg.tol ≤ p.2)
+    (hm : ∀ p ∈ q, rnow + ms cfg.tol ≤ p.2) (hnow : rnow ≤ st.now)
     (hc : calmNext q.length st.script st.dflt (rnow + ms cfg.tol - st.now)) :
     RoundInv cfg (roundStep cfg rnow q st).1
     ∧ ∃ (r : Req) (sid : Sid) (rt : Time), (roundStep cfg rnow q st).1.rtrace = .req r :: st.rtrace
@@ -127,7 +127,9 @@ theorem roundStep_calm (cfg : Cfg) (hs : cfg.skipStale = false) (hd : cfg.delEar
   refine ⟨?_, r, sid, rt, h3, h4, h5, h1, h6, hm _ h1⟩
   unfold RoundInv
   rw [h9]
-  refine ⟨rfl, by rw [h7]; exact hstep.1, ?_, fun p hp => hm p (h2' p hp)⟩
+  refine ⟨rfl, by rw [h7]; exact hstep.1, ?_, ?_, fun p hp => hm p (h2' p hp)⟩
+  · have : (0 : Int) ≤ (r.lat : Int) := Int.natCast_nonneg _
+    unfold Time at *; omega
   rw [h10, h11, h8]
   have he : rnow + ms cfg.tol - (st.now + ((st.script.headD st.dflt).lat : Int))
       = rnow + ms cfg.tol - st.now - ((st.script.headD st.dflt).lat : Int) := by
